@@ -274,6 +274,10 @@ type c14NodeCfg struct {
 	InMem           bool
 	MaxAcctLookback uint64 // 0 = default (4)
 	NoLRU           bool   // config DisableLedgerLRUCache (also avoids the 100k-entry cache buffers at every open/reload)
+	// LateEnable: the node starts with catchpoint tracking switched off (CatchpointTracking=-1)
+	// and gets the configuration above at its first restart (an operator enabling catchpoints):
+	// the balances trie is then rebuilt from the account / kv tables by initializeHashes.
+	LateEnable bool
 }
 
 type c14Node struct {
@@ -286,7 +290,12 @@ type c14Node struct {
 	log    logging.Logger
 	hook   *c14LogHook
 	ops    int64 // executed operations (blocks added, reloads)
+	// configuration to switch to at the next restart (LateEnable)
+	cfgAfter *config.Local
 }
+
+// tracking reports whether the node currently maintains the balances trie / labels.
+func (n *c14Node) tracking() bool { return n.l.catchpoint.catchpointEnabled() }
 
 func c14LocalConfig(nc c14NodeCfg) config.Local {
 	cfg := config.GetDefaultLocal()
@@ -315,6 +324,11 @@ func c14LocalConfig(nc c14NodeCfg) config.Local {
 func c14OpenNode(gen *c14Genesis, dir string, name string, nc c14NodeCfg) (*c14Node, error) {
 	c14RegisterProtos()
 	n := &c14Node{gen: gen, ncfg: nc, cfg: c14LocalConfig(nc), prefix: filepath.Join(dir, name)}
+	if nc.LateEnable {
+		after := n.cfg
+		n.cfgAfter = &after
+		n.cfg.CatchpointTracking = -1
+	}
 	n.log, n.hook = c14NewLogger()
 	n.probe = c14NewProbe()
 	if err := n.open(); err != nil {
@@ -420,6 +434,13 @@ func (n *c14Node) addBatch(blks []bookkeeping.Block, flush bool) error {
 func (n *c14Node) reload() error {
 	// reloadLedger's replay may flush; pin the time input for determinism of *that* decision
 	// is unnecessary: replay overwrites lastFlushTime itself when it decides to flush.
+	if n.cfgAfter != nil {
+		n.cfg = *n.cfgAfter
+		n.cfgAfter = nil
+		n.l.trackerMu.Lock()
+		n.l.cfg = n.cfg
+		n.l.trackerMu.Unlock()
+	}
 	if err := n.l.reloadLedger(); err != nil {
 		return err
 	}
@@ -437,6 +458,10 @@ func (n *c14Node) reopen() error {
 	}
 	n.l.Close()
 	n.l = nil
+	if n.cfgAfter != nil {
+		n.cfg = *n.cfgAfter
+		n.cfgAfter = nil
+	}
 	if err := n.open(); err != nil {
 		return err
 	}
@@ -972,6 +997,9 @@ func (n *c14Node) observe(o *c14Obs, lastSeenDB *basics.Round) error {
 		o.Labels[r] = lbl
 	}
 	db := n.dbRound()
+	if !n.tracking() {
+		return nil
+	}
 	if db != *lastSeenDB || len(o.Roots) == 0 {
 		root, err := n.trieRoot()
 		if err != nil {
